@@ -672,6 +672,31 @@ fn exec(cx: &mut Ctx, op: &Op, pc: usize) -> Option<u64> {
             }
             None
         }
+        Op::CvWaitUntil { c, m, a, o, v } => {
+            if let Some(mut g) = cx.mguards[m as usize].take() {
+                loop {
+                    let x = env.atomics[a as usize].load(o.to_std());
+                    if x == v {
+                        break;
+                    }
+                    rec(tid, pc, HK::Spin, Some(x));
+                    g = env.condvars[c as usize].wait(g).unwrap();
+                }
+                cx.mguards[m as usize] = Some(g);
+            }
+            None
+        }
+        Op::NWaitUntil { n, a, o, v } => {
+            loop {
+                let x = env.atomics[a as usize].load(o.to_std());
+                if x == v {
+                    break;
+                }
+                rec(tid, pc, HK::Spin, Some(x));
+                env.notifies[n as usize].wait();
+            }
+            None
+        }
         Op::CvOne { c } => {
             env.condvars[c as usize].notify_one();
             None
